@@ -45,7 +45,9 @@ impl LexerError {
                     .lines()
                     .enumerate()
                     .fold(String::new(), |acc, (i, l)| {
-                        if l.trim().is_empty() {
+                        // the reported line is shown even if nothing but characters that
+                        // Rust considers white-space is left of it
+                        if l.trim().is_empty() && i + start_line != line {
                             return acc;
                         }
                         let line_no = format!("{:0>digits$}", (start_line + i).to_string());
